@@ -59,11 +59,11 @@ def orth(rs, n, cplx):
 
 
 def gen_opnorm_case(rng):
-    kind = rng.choice(["diag", "dense", "dense", "jac", "zero", "diagc", "densec"])
-    n = rng.randint(1, 5)
+    kind = rng.choice(["diag", "dense", "dense", "jac", "zero", "diagc", "densec", "densec", "genc", "jacc"])
+    n = rng.randint(1, 8)
     m = rng.randint(1, 5)
     gap = rng.random() < 0.5
-    k = min(n, m) if kind.startswith("dense") else n
+    k = min(n, m) if kind in ("dense", "densec", "genc", "jacc") else n
     if gap:
         top = rng.choice([1.0, 2.0, 3.5, 8.0])
         sv = [top] + [top * rng.uniform(0.0, 0.5) for _ in range(k - 1)]
@@ -72,6 +72,7 @@ def gen_opnorm_case(rng):
         sv = [top] * min(2, k) + [top * rng.uniform(0.9, 1.0) for _ in range(max(0, k - 2))]
     return {"kind": kind, "n": n, "m": m, "sv": sv, "gap": gap, "seed": rng.randint(0, 10**6),
             "scale_exp": rng.choice([-20, -17, -14, -10, -7, -3, 0, 0, 3, 7, 10, 14, 20]),   # 2^k: 1e-6 .. 1e+6
+            "dtype": rng.choice(["c128", "c128", "c64"]),
             "key": rng.randint(0, 1000), "budgets": sorted(set([1, 2, rng.randint(3, 40), rng.choice([60, 100, 150]), 200]))}
 
 
@@ -82,6 +83,13 @@ def fixed_opnorm_cases():
                                    ("dense", 20), ("diag", 14), ("dense", -10)]):
         out.append({"kind": kind, "n": 3, "m": 4, "sv": [3.0, 1.0, 0.5], "gap": True, "seed": 11 + i, "scale_exp": k,
                     "key": 5 + i, "budgets": [1, 7, 200]})
+    # complex WIDE (3x8), tall (8x3) and square operators: MatrixOperator complex128 / complex64, a generic
+    # LinearOperator C^8 -> C^3, Jacobians of holomorphic non-linear operators with these shapes
+    for i, (kind, m, n, dt) in enumerate([("densec", 3, 8, "c128"), ("densec", 3, 8, "c64"), ("genc", 3, 8, "c128"),
+                                          ("jacc", 3, 8, "c128"), ("densec", 8, 3, "c128"), ("densec", 4, 4, "c64"),
+                                          ("genc", 2, 5, "c64"), ("jacc", 5, 2, "c128")]):
+        out.append({"kind": kind, "n": n, "m": m, "sv": [3.0, 1.0, 0.5], "gap": True, "seed": 31 + i, "scale_exp": 0,
+                    "dtype": dt, "key": 20 + i, "budgets": [1, 7, 200]})
     return out
 
 
@@ -103,12 +111,26 @@ def build_op(case):
             d = d * np.exp(1j * rs.uniform(0, 6.28, size=n))
         d = d[rs.permutation(n)]
         return linop.Diagonal(snp.array(d)), np.diag(d)
-    if kind in ("dense", "densec"):
-        cplx = kind == "densec"
+    if kind in ("dense", "densec", "genc", "jacc"):
+        cplx = kind != "dense"
         k = min(n, m)
+        sv = (sv + [sv[-1]] * k)[:k]
         U, V = orth(rs, m, cplx), orth(rs, n, cplx)
         A = (U[:, :k] * np.array(sv)) @ V[:, :k].conj().T
-        return linop.MatrixOperator(snp.array(A)), A
+        if cplx:
+            A = A.astype(np.complex64 if case.get("dtype") == "c64" else np.complex128)
+        Aj = snp.array(A)
+        if kind == "genc":
+            AjH = snp.array(A.conj().T)
+            op = linop.LinearOperator(input_shape=(n,), output_shape=(m,), eval_fn=lambda x: Aj @ x,
+                                      adj_fn=lambda y: AjH @ y, input_dtype=A.dtype, output_dtype=A.dtype)
+            return op, np.array(A)
+        if kind == "jacc":
+            x0 = snp.array((rs.uniform(-0.5, 0.5, size=n) + 1j * rs.uniform(-0.5, 0.5, size=n)).astype(A.dtype))
+            fn = lambda x: Aj @ (x + 0.5 * x * x)            # holomorphic; Jacobian A diag(1 + x0)
+            F = operator.Operator(input_shape=(n,), output_shape=(m,), input_dtype=A.dtype, output_dtype=A.dtype, eval_fn=fn)
+            return linop.jacobian(F, x0), np.array(A) @ np.diag(1.0 + np.array(x0))
+        return linop.MatrixOperator(Aj), np.array(A)
     if kind == "jac":
         k = n
         U, V = orth(rs, n, False), orth(rs, n, False)
@@ -123,19 +145,77 @@ def build_op(case):
     raise ValueError(kind)
 
 
+def hermitian_psd_defects(G, dense, rs):
+    """G must be A^H A or A A^H of the dense matrix: Hermitian (<Gx,y> = <x,Gy>) and PSD on samples."""
+    import scico.numpy as snp
+    bad = []
+    N = int(np.prod(G.input_shape))
+    cplx = np.iscomplexobj(dense)
+    dt = dense.dtype
+
+    def rv():
+        v = rs.standard_normal(N)
+        if cplx:
+            v = v + 1j * rs.standard_normal(N)
+        return v.astype(dt)
+    tol = 1e-4 if dt in (np.complex64, np.float32) else 1e-10
+    grams = [g for g in (dense.conj().T @ dense, dense @ dense.conj().T) if g.shape[0] == N]
+    for _ in range(2):
+        x, y = rv(), rv()
+        Gx = np.asarray(G(snp.array(x.reshape(G.input_shape)))).ravel()
+        Gy = np.asarray(G(snp.array(y.reshape(G.input_shape)))).ravel()
+        sc = np.linalg.norm(Gx) * np.linalg.norm(y) + np.linalg.norm(Gy) * np.linalg.norm(x) + 1e-300
+        if not abs(np.vdot(Gx, y) - np.vdot(x, Gy)) <= tol * sc:
+            bad.append("power_iteration is run on an operator that is not Hermitian (<Gx,y> != <x,Gy>)")
+        q = np.vdot(x, Gx)
+        if not (abs(q.imag) <= tol * sc and q.real >= -tol * sc):
+            bad.append("power_iteration is run on an operator that is not positive semi-definite")
+        if not any(np.max(np.abs(Gx - g @ x)) <= tol * (np.max(np.abs(g @ x)) + 1e-300) for g in grams):
+            bad.append("power_iteration is run on an operator that is neither A^H A nor A A^H")
+    return sorted(set(bad))
+
+
 def check_opnorm(ctx, case, report=True):
     import jax
+    import scico.linop._util as lu
     from scico.linop import operator_norm
     A, dense = build_op(case)
     smax = float(np.linalg.svd(dense, compute_uv=False)[0]) if dense.size else 0.0
     svals = np.linalg.svd(dense, compute_uv=False)
+    single = dense.dtype in (np.complex64, np.float32)
+    up, low = (2e-5, 1e-4) if single else (1e-9, 1e-6)
     key = jax.random.PRNGKey(case["key"])
     ests = []
     bad = []
-    for b in case["budgets"]:
-        e = float(operator_norm(A, maxiter=b, key=key))
-        ests.append(e)
+    seen = []
+    orig_pi = lu.power_iteration
+
+    def pi(G, *a, **k):
+        seen.append(G)
+        return orig_pi(G, *a, **k)
+    lu.power_iteration = pi
+    try:
+        for b in case["budgets"]:
+            ests.append(float(operator_norm(A, maxiter=b, key=key)))
+    finally:
+        lu.power_iteration = orig_pi
+    if len(seen) != len(case["budgets"]):
+        bad.append("operator_norm does not run power_iteration exactly once")
+        if report:
+            ctx.violation("operator_norm", bad[-1], dict(case))
+    elif case["kind"] != "zero":
+        for w in hermitian_psd_defects(seen[0], dense, np.random.RandomState(case["seed"] + 1)):
+            bad.append(w)
+            if report:
+                ctx.violation("operator_norm", w, dict(case), "G = A^H A or A A^H (Hermitian PSD)", "see input",
+                              "C17_rayleigh_monotone / C17_operator_norm_never_exceeds hypotheses, checked on samples")
+    for b, e in zip(case["budgets"], ests):
         inp = dict(case, budget=b, sigma_max=smax)
+        if not math.isfinite(e):
+            bad.append("operator norm estimate is not finite (nan/inf)")
+            if report:
+                ctx.violation("operator_norm", bad[-1], inp, f"finite, <= {smax}", str(e), "numpy.linalg.svd")
+            continue
         if case["kind"] == "zero":
             if e != 0.0:
                 bad.append("estimate for the zero operator is not exactly 0")
@@ -148,19 +228,19 @@ def check_opnorm(ctx, case, report=True):
                 ctx.violation("operator_norm", bad[-1], inp, f"> 0 (sigma_max = {smax})", e,
                               "C17_estimate_zero_only_on_kernel / C17_estimate_positive")
             continue
-        if not (e <= smax * (1 + 1e-9)):
+        if not (e <= smax * (1 + up)):
             bad.append("operator norm estimate exceeds the largest singular value")
             if report:
                 ctx.violation("operator_norm", bad[-1], inp, f"<= {smax}", e, "C17_operator_norm_never_exceeds; numpy.linalg.svd")
     for (b1, e1), (b2, e2) in zip(zip(case["budgets"], ests), list(zip(case["budgets"], ests))[1:]):
-        if not (e1 <= e2 * (1 + 1e-9) + 1e-300):
+        if math.isfinite(e1) and math.isfinite(e2) and not (e1 <= e2 * (1 + up) + 1e-300):
             bad.append("estimate decreased when the budget grew (same key)")
             if report:
                 ctx.violation("operator_norm", bad[-1], dict(case, b1=b1, b2=b2), f">= {e1}", e2, "C17_rayleigh_monotone")
     if case["kind"] != "zero" and len(svals) >= 1 and smax > 0:
         second = float(svals[1]) if len(svals) > 1 else 0.0
-        if second <= 0.5 * smax and not (ests[-1] >= smax * (1 - 1e-6)):
-            bad.append("estimate at budget 200 not within 1e-6 of sigma_max although sigma_2 <= sigma_1/2")
+        if second <= 0.5 * smax and not (ests[-1] >= smax * (1 - low)):
+            bad.append("estimate at budget 200 not within 1e-6 (1e-4 in single precision) of sigma_max although sigma_2 <= sigma_1/2")
             if report:
                 ctx.violation("operator_norm", bad[-1], dict(case, sigma_max=smax), smax, ests[-1], "numpy.linalg.svd")
     return bad
@@ -299,6 +379,8 @@ def gen_est_case(rng):
          "A": [[dy(rng, 1, -2, 2) for _ in range(n)] for _ in range(m)]}
     if all(t == 0 for r in c["A"] for t in r):
         c["A"][0][0] = 1.0
+    if kind in ("pdhg", "padmm") and rng.random() < 0.35:
+        c["Ai"] = [[dy(rng, 1, -2, 2) for _ in range(n)] for _ in range(m)]
     if kind == "padmm":
         nb = rng.randint(1, 3)
         c["B"] = None if rng.random() < 0.35 else [[dy(rng, 1, -2, 2) for _ in range(nb)] for _ in range(m)]
@@ -328,6 +410,16 @@ def fixed_est_cases():
     Am = [[1.0, 2.0, 0.5], [0.0, 1.0, -1.0], [1.5, 0.0, 1.0]]
     for mi, f, k in ((1, "default", 0), (3, "default", 0), (1, None, 0), (3, 2.0, -15), (1500, "default", 0), (7, "default", -18)):
         out.append({"kind": "padmm", "factor": f, "ratio": "default", "key": 3, "maxiter": mi, "A": Am, "B": Bm, "scale_exp": k})
+    # complex wide (2x4), tall (4x2) and square operators for the linear estimators
+    Aw, Awi = [[1.0, 2.0, 0.5, -1.0], [0.0, 1.0, -1.0, 2.0]], [[0.5, -1.0, 2.0, 0.0], [1.5, 0.0, 1.0, -0.5]]
+    At, Ati = [list(r) for r in zip(*Aw)], [list(r) for r in zip(*Awi)]
+    Bw, Bwi = [[1.0, 0.0, 2.0], [0.5, -1.0, 1.0]], [[0.0, 1.0, -0.5], [2.0, 0.5, 0.0]]
+    for kind in ("pdhg", "padmm"):
+        for Ar, Ai in ((Aw, Awi), (At, Ati), ([[1.0, 2.0], [0.0, 1.0]], [[0.5, 0.0], [1.0, -1.0]])):
+            c = {"kind": kind, "factor": "default", "ratio": "default", "key": 6, "maxiter": 40, "A": Ar, "Ai": Ai}
+            if kind == "padmm":
+                c["B"], c["Bi"] = (Bw, Bwi) if len(Ar) == 2 and len(Ar[0]) == 4 else (None, None)
+            out.append(c)
     for kind in ("pdhg", "pdhg_nl", "nlpadmm", "padmm"):
         for mi, k in ((1, 0), (3, -15), ("default", -17)):
             c = {"kind": kind, "factor": "default", "ratio": 2.0, "key": 4, "maxiter": mi, "A": Am, "x": [0.5, -0.25, 0.75],
@@ -358,6 +450,8 @@ def run_est(c):
         kw["factor"] = c["factor"]
     scale = 2.0 ** c.get("scale_exp", 0)
     A = np.array(c["A"], dtype=np.float64) * scale
+    if c.get("Ai") is not None:                       # complex operator (wide / tall / square)
+        A = A + 1j * scale * np.array(c["Ai"], dtype=np.float64)
     mods = (mpd, mpa)
     origs = [mod.operator_norm for mod in mods]
 
@@ -393,6 +487,8 @@ def run_est(c):
                 dense, ops = [A, -np.eye(A.shape[0])], [Aop, None]
             else:
                 B = np.array(c["B"], dtype=np.float64) * scale
+                if c.get("Bi") is not None:
+                    B = B + 1j * scale * np.array(c["Bi"], dtype=np.float64)
                 Bop = linop.MatrixOperator(snp.array(B))
                 out = ProximalADMM.estimate_parameters(Aop, Bop, **kw)
                 dense, ops = [A, B], [Aop, Bop]
@@ -429,7 +525,7 @@ def check_calls(c, rec, dense, ops, key, orig_norm, V, inp):
         J = r["J"]
         if ops is not None and ops[i] is not None and J is not ops[i]:
             V(f"{nm} operator_norm call not made on the operator passed to the estimator", dict(inp, call=i))
-        t = np.array([1.0, -0.5, 0.25, 2.0, -1.5][:D.shape[1]])
+        t = np.array([1.0, -0.5, 0.25, 2.0, -1.5, 0.75, -2.0, 1.25][:D.shape[1]]).astype(D.dtype)
         got = np.asarray(J(snp.array(t)))
         if not np.max(np.abs(got - D @ t)) <= 1e-10 * max(np.max(np.abs(D @ t)), 1e-300):
             V(f"{nm} operator_norm call made on a different operator (Jacobian / B)", dict(inp, call=i))
@@ -463,18 +559,20 @@ def check_est(ctx, c, items, report=True):
     for e, t in zip(rec, true):
         if not e <= t * (1 + 1e-9):
             V("norm estimate used by the estimator exceeds the true norm", inp, t, e, "numpy svd")
+        if not math.isfinite(e):
+            V("norm estimate used by the estimator is not finite (nan/inf)", inp, t, str(e), "numpy svd")
         if e == 0.0 and t > 0:
             V("norm estimate used by the estimator is exactly 0 for a non-zero operator", inp, f"> 0 (true {t})", e,
               "C17_estimate_positive")
     if all(t > 0 for t in true) and not all(math.isfinite(v) and v > 0 for v in out):
         V("estimated parameters are not finite and positive for a non-zero operator", inp, "finite > 0", out)
-    if any(e <= 0 for e in rec):
+    if any(not (e > 0) for e in rec):          # zero or NaN estimates: reported above
         return bad
     if pd:
         tau, sigma = out
         ratio = 1.0 if c["ratio"] == "default" else c["ratio"]
         est, cn = rec[0], true[0]
-        if items is not None:
+        if items is not None and all(map(math.isfinite, [est, tau, sigma])):
             items["pdhg"].append((f"({fq}, {qc(ratio)}, {qc(est)}, {qc(tau)}, {qc(sigma)})",
                                   (unit, "returned (tau, sigma) differ from the Coq model", inp)))
         if not sigma == ratio * tau:
@@ -497,7 +595,7 @@ def check_est(ctx, c, items, report=True):
             V("factor=None: tau*sigma*est^2 is not 1", inp, 1.0, tau * sigma * est * est)
     else:
         mu, nu = out
-        if items is not None:
+        if items is not None and all(map(math.isfinite, rec + [mu, nu])):
             items["padmm"].append((f"({fq}, {qc(rec[0])}, {qc(rec[1])}, {qc(mu)}, {qc(nu)})",
                                    (unit, "returned (mu, nu) differ from the Coq model", inp)))
         if fac is None:
@@ -572,7 +670,7 @@ def run(ctx: Ctx):
     items = new_items()
     import time
     t0 = time.time()
-    ocases = fixed_opnorm_cases() + [gen_opnorm_case(ctx.rng) for _ in range(ctx.n(9, 500))]
+    ocases = fixed_opnorm_cases() + [gen_opnorm_case(ctx.rng) for _ in range(ctx.n(6, 500))]
     for c in ocases:
         check_opnorm(ctx, c)
         ctx.count("operator_norm " + c["kind"] + (" gap" if c["gap"] else " no-gap"), c, nontrivial=c["kind"] != "zero")
@@ -600,7 +698,7 @@ def replay(ctx: Ctx, rec):
     unit, inp, what = rec["unit"], rec["input"], rec["what"]
     items = new_items()
     if unit == "operator_norm":
-        c = {k: inp[k] for k in ("kind", "n", "m", "sv", "gap", "seed", "key", "budgets", "scale_exp") if k in inp}
+        c = {k: inp[k] for k in ("kind", "n", "m", "sv", "gap", "seed", "key", "budgets", "scale_exp", "dtype") if k in inp}
         return what not in check_opnorm(ctx, c, report=False)
     if unit.endswith(".norm"):
         c = {k: v for k, v in inp.items() if k != "ord"}
